@@ -83,8 +83,23 @@ V2 = V + [
     ['diff', {'content': b'@@ -1 +1 @@\r\n-a\r\n+b', 'diff_type': 'text',
               'line_endings': 'dos'}],
 ]
-ALL = V2 + I
-INVALID_KEYS = set(spec_key for spec_key in range(len(V2), len(ALL)))
+# Arguments Python's codec registry resolves but which cannot stand as a
+# header value (blank, comma, line break, non-ASCII).  The property does not
+# say whether such a call is refused; either way holds as long as a refusal
+# is atomic and an accepted call leaves a file the reader reads back with
+# one record per accepted call.
+Q = [
+    ['change', {'encoding': 'utf-8\xe9'}],
+    ['file', {'encoding': 'utf 8'}],
+    ['preamble', {'text': 'x', 'encoding': 'utf 8'}],
+    ['preamble', {'text': 'x', 'encoding': 'utf-8\xe9'}],
+    ['meta', {'metadata': {'k': 1}, 'encoding': 'latin 1'}],
+    ['change', {'encoding': 'utf-8, x=1'}],
+    ['file', {'encoding': 'utf-8\n#...meta: length=2'}],
+    ['diff', {'content': b'x\n', 'encoding': 'UTF 8'}],
+]
+ALL = V2 + I + Q
+INVALID_KEYS = set(spec_key for spec_key in range(len(V2), len(V2) + len(I)))
 
 
 class AppendOnly(io.BytesIO):
@@ -132,6 +147,10 @@ def is_invalid(call):
     return any(_same(list(call), list(i)) for i in I)
 
 
+def is_questionable(call):
+    return any(_same(list(call), list(q)) for q in Q)
+
+
 def judge(calls, main='utf-8'):
     """Return (None | (kind, detail), n_accepted, n_rejected,
     rejection_then_acceptance)."""
@@ -142,6 +161,8 @@ def judge(calls, main='utf-8'):
     accepted = []
     nrej = 0
     rej_then_acc = False
+    questionable_accepted = False
+    want_ids = []
 
     for idx, (op, kw) in enumerate(calls):
         legal = w.accepts(op) and not is_invalid([op, kw])
@@ -156,6 +177,39 @@ def judge(calls, main='utf-8'):
         after = stream.getvalue()
         where = 'call %d %s%r after %r' % (idx, op, sorted(kw), w.prev)
 
+        if legal and is_questionable([op, kw]):
+            if raised is not None:
+                if after != before:
+                    return (('rejected-call-wrote-bytes',
+                             '%s wrote %r' % (where,
+                                              after[len(before):][:80])),
+                            len(accepted), nrej, rej_then_acc)
+
+                nrej += 1
+                continue
+
+            if not (after.startswith(before) and len(after) > len(before)):
+                return (('not-append-only', where), len(accepted), nrej,
+                        rej_then_acc)
+
+            want_ids.append(w.section_id(op))
+            w.advance(op, kw)
+            accepted.append([op, kw])
+            questionable_accepted = True
+            continue
+
+        if legal and raised is not None and questionable_accepted:
+            # what an accepted unwritable codec name means for the calls
+            # that inherit it is not the property's business; a refusal
+            # must still be atomic
+            if after != before:
+                return (('rejected-call-wrote-bytes',
+                         '%s wrote %r' % (where, after[len(before):][:80])),
+                        len(accepted), nrej, rej_then_acc)
+
+            nrej += 1
+            continue
+
         if legal:
             if raised is not None:
                 return (('rejected-legal-call',
@@ -166,6 +220,7 @@ def judge(calls, main='utf-8'):
                 return (('not-append-only', where), len(accepted), nrej,
                         rej_then_acc)
 
+            want_ids.append(w.section_id(op))
             w.advance(op, kw)
             accepted.append([op, kw])
 
@@ -189,6 +244,24 @@ def judge(calls, main='utf-8'):
 
     data = stream.getvalue()
 
+    if questionable_accepted:
+        # no reference bytes for a name the header grammar cannot carry:
+        # the file must at least read back section for section
+        recs, err = sut.read_records(data)
+        ids = [r.get('section') for r in recs]
+        want = (['diffx'] + [sid for sid, _ in zip(want_ids, accepted)]
+                if _closed(w) else None)
+
+        if err is not None and want is not None or \
+                (want is not None and ids != want):
+            return (('accepted-call-left-unreadable-file',
+                     'accepted %r; reader gave %r, %r'
+                     % ([(o, k.get('encoding')) for o, k in accepted
+                         if is_questionable([o, k])], ids[-4:], err)),
+                    len(accepted), nrej, rej_then_acc)
+
+        return None, len(accepted), nrej, rej_then_acc
+
     try:
         segs = spec.ref_segments({'encoding': main, 'calls': accepted})
     except spec.Unencodable:
@@ -203,6 +276,12 @@ def judge(calls, main='utf-8'):
                 len(accepted), nrej, rej_then_acc)
 
     return None, len(accepted), nrej, rej_then_acc
+
+
+def _closed(w):
+    """The accepted calls so far form a file the reader must accept
+    (every file has its metadata)."""
+    return w.prev not in ('..file',)
 
 
 def run_case(case, st):
@@ -287,7 +366,7 @@ def strategy():
             r = draw(hs.integers(0, 9))
 
             if r < 2:
-                call = draw(hs.sampled_from(I))
+                call = draw(hs.sampled_from(I + Q))
             else:
                 # bias towards legal continuations, keep some illegal ones
                 ops = ['change', 'file', 'preamble', 'meta', 'diff']
@@ -311,7 +390,8 @@ def strategy():
 
             calls.append(call)
 
-            if w.accepts(call[0]) and not is_invalid(call):
+            if w.accepts(call[0]) and not is_invalid(call) and \
+                    not is_questionable(call):
                 w.advance(call[0], call[1])
 
         return {'encoding': main, 'calls': calls}
@@ -348,6 +428,36 @@ def run_ctor_chunk(_chunk, st):
                      'DiffXWriter(version=%r) accepted' % (version,),
                      {'version': version})
 
+    for enc in ('utf-8\xe9', 'utf 8', 'utf-8, x=1', 'utf-8\n#.change:'):
+        stream = AppendOnly()
+        evals += 1
+
+        try:
+            w = ns.DiffXWriter(stream, encoding=enc)
+        except Exception:
+            if stream.getvalue():
+                st.violation('rejected-constructor-wrote-bytes',
+                             'encoding=%r wrote %r' % (enc, stream.getvalue()),
+                             {'encoding': enc})
+
+            continue
+
+        try:
+            w.new_change()
+            w.new_file()
+            w.write_meta({'k': 1})
+        except Exception:
+            continue
+
+        recs, err = sut.read_records(stream.getvalue())
+
+        if err is not None or [r.get('section') for r in recs] != \
+                ['diffx', '.change', '..file', '...meta']:
+            st.violation('accepted-constructor-left-unreadable-file',
+                         'DiffXWriter(encoding=%r): %r / %r'
+                         % (enc, stream.getvalue()[:80], err),
+                         {'encoding': enc})
+
     for kwargs, enc in (({}, 'utf-8'), ({'version': '1.0'}, 'utf-8'),
                         ({'encoding': 'latin-1'}, 'latin-1'),
                         ({'encoding': 'utf-16', 'version': '1.0'}, 'utf-16')):
@@ -376,7 +486,9 @@ def checks():
                  'arguments up to length LV, and all sequences over 10 valid '
                  '+ 47 invalid-argument variants (wrong types, empty content, '
                  'bad option values, unencodable text incl. lone surrogates, '
-                 'unknown and non-text codecs) up to length LA; per step: '
+                 'unknown and non-text codecs) + 8 codec names that cannot '
+                 'stand as a header value (refused atomically, or accepted '
+                 'and readable) up to length LA; per step: '
                  'accepted iff the section may follow (my table) and the '
                  'arguments are valid, rejected calls leave the stream '
                  'byte-identical, accepted ones append; at the end bytes == '
@@ -386,10 +498,11 @@ def checks():
         EnumCheck(
             'constructor', ctor_chunks, run_ctor_chunk,
             rule='DiffXWriter(): 8 unsupported version values must be '
-                 'refused with nothing written; default and explicit '
+                 'refused with nothing written, 4 unwritable encoding names '
+                 'refused atomically or readable; default and explicit '
                  'version / encoding arguments give the documented header '
                  'and encoding; all non-trivial',
-            bound={'quick': '12 constructor calls', 'thorough': 'same'}),
+            bound={'quick': '16 constructor calls', 'thorough': 'same'}),
         HypCheck(
             'random', strategy, run_case,
             budget={'quick': (8, 120), 'thorough': (16, 6000)},
